@@ -7,7 +7,8 @@ from tie.framework import g_bool, g_list, g_nat, g_pair, g_str, g_Z
 
 PROP = "C08"
 IMPORTS = "From JV Require Import Lib.Base Model.C08Heap Model.C08Inst Spec.C08FrameSpec Corr.C08Judge."
-RULE = ("one API call {get_defaults, parse_object(dict|Namespace), parse_string, parse_path, validate, dump(skip_validation?), "
+RULE = ("one API call {get_defaults, parse_object(dict|Namespace), parse_string, parse_path, validate, validate(branch=KEY) with all "
+        "arguments declared below KEY, dump(skip_validation?), "
         "save(existing file?), merge_config, strip_unknown, instantiate_classes} on a seeded random parser (2-5 arguments of type "
         "int, str, Optional, List, Dict[str,.], Tuple with lists/dicts inside (also two and three tuple levels deep), nested up to "
         "depth 4; the directory of the file of parse_path / save is plain, reached through a symlink, given relative to the cwd, or "
@@ -24,13 +25,15 @@ RULE = ("one API call {get_defaults, parse_object(dict|Namespace), parse_string,
         "first appearance, objects of the family alive before the calls first) is reported; argument types also Tuple[Base,int], "
         "Tuple[Tuple[Base,int],str], Tuple[Tuple[Tuple[int,Base],List[Base]],int] (specs up to three tuple levels deep), specs with "
         "dict_kwargs; validate and dump (twice) run on the configuration before the two instantiate calls and a deep identity-aware "
-        "snapshot of it is compared; non-trivial = at least 2 specs. get_defaults cases also declare child arguments with a "
-        "dotted dest below a dict-valued argument (--k {..} then --k.hi). Plus, exhaustively, the 84 'bracket' cases: entry point "
+        "snapshot of it is compared; non-trivial = at least 2 specs. validate / validate(branch) / dump / instantiate / parse_object cases also declare "
+        "list-valued actions (type=t, nargs='*'; t in int, str, List[int], Tuple[int,int], Dict[str,int]); get_defaults cases also declare child arguments with a "
+        "dotted dest below a dict-valued argument (--k {..} then --k.hi). Plus, exhaustively, the 136 'bracket' cases: entry point "
         "{parse_args with --cfg file, get_defaults / format_help / print_help / parse_args with default_config_files, List[int] list "
         "file (enable_path), parse_env, and file-less get_defaults / parse_args / parse_object / parse_string / dump(skip_default) / "
         "validate; parse_object / validate / dump of typed lists inside dict-SUBCLASS values (OrderedDict, defaultdict; Dict[str,List[float]], "
         "Mapping[str,List[Enum]], Dict[str,Tuple[List[float],int]]); parse then save(cfg, path) in multi-file mode / dump on parsers with "
-        "parse-time links (top level and inside a subcommand; one link leaves its target's parent empty)} x directory flavour {plain, symlink, relative, both} x {succeeds, fails midway} on parsers that also declare "
+        "parse-time links (top level and inside a subcommand; one link leaves its target's parent empty)} x directory flavour {plain, symlink, relative, both} x {succeeds, fails midway} x history {fresh process; argparse.Namespace replaced by another class, "
+        "load_value_mode set by an enclosing context and an extra environment variable BEFORE the call} on parsers that also declare "
         "untyped optionals and positionals set by the file and a mapping default (the caller's own dict) with a child argument below it: globals, the argv list / environ dict, action.default "
         "of every declared action and get_defaults() without default config files before vs after. The expected objects of an "
         "'instantiate twice' case are computed by the harness from the configuration given, the parser defaults and the class "
@@ -52,7 +55,9 @@ ASSUMPTIONS = [
     "meta keys; dotted dests (a child below a dict-valued argument) only in get_defaults cases — the other operations of the heap "
     "model look keys up flat",
     "yaml/json loading of a document is external: the model is handed the loaded object graph (fresh objects)",
-    "exception classes are not compared; user-defined objects, threads and C-level state are outside the model",
+    "exception classes are not compared (one kind of ordinary failure in the model): dump(skip_validation=True) is not run on parsers "
+    "with list-valued (nargs) actions, where a non-list value raises TypeError past suppress(ValueError); user-defined objects, threads "
+    "and C-level state are outside the model",
     "dict subclasses (OrderedDict - which recreate_branches hands over uncopied - and defaultdict) and argument links are NOT in the heap "
     "model: they are only exercised by the bracket cases, where the configuration is snapshotted (value, exact type and identity of "
     "every nested container, exact type of every leaf) before and after the call",
@@ -81,7 +86,8 @@ META = {
         "(get_defaults returns only freshly allocated containers; get_defaults assigns through dotted dests - a child argument "
         "declared below a mapping-valued one - into the copy of the parent's default: set_path, inside C08_fixed_frame / "
         "C08_fixed_defaults_untouched; C08_get_defaults_late_copy_refuted: copying once at the end writes into the declared "
-        "dict). The unguarded statement is false on the pinned tree: "
+        "dict; list-valued actions (type constructor TNargs: elements written back into the list handed over) and the operation "
+        "validate(cfg, branch=KEY) are inside the frame theorems, C08_validate_branch_noclone_refuted). The unguarded statement is false on the pinned tree: "
         "C08_parse_object_mutates_refuted, C08_parse_object_failure_mutates_refuted, C08_dump_tuple_refuted, "
         "C08_get_defaults_shares_refuted (two findings, fixed in /repo since). For the tree with the two fix patches the same model with "
         "recreate_branches rebuilding tuples and parse_object copying its argument satisfies the statement with NO guard: "
@@ -139,7 +145,7 @@ class NS(dict):
 def has_container_below_tuple(t, below=False):
     if isinstance(t, str):
         return False
-    if t[0] in ("list", "dict"):
+    if t[0] in ("list", "dict", "nargs"):
         return below or has_container_below_tuple(t[1], below)
     if t[0] == "opt":
         return has_container_below_tuple(t[1], below)
@@ -158,7 +164,7 @@ def gen(rng, t, q):
     k = t[0]
     if k == "opt":
         return None if rng.random() < 0.25 else gen(rng, t[1], q)
-    if k == "list":
+    if k in ("list", "nargs"):
         xs = [gen(rng, t[1], q) for _ in range(rng.randint(0, 3))]
         return tuple(xs) if (not q["json"] and rng.random() < q["swap"]) else xs
     if k == "dict":
@@ -254,6 +260,9 @@ def mk_case(decls, op_kind, args=(), content=None, **flags):
 DIRS = ["plain", "plain", "symlink", "rel", "symrel"]
 
 
+NARGS_OPS = ("validate", "dump", "instantiate", "parse_object")
+
+
 def one_case(rng):
     r = rng.random()
     kind = ("parse_object" if r < 0.22 else "dump" if r < 0.36 else "validate" if r < 0.46 else "instantiate" if r < 0.56
@@ -264,6 +273,14 @@ def one_case(rng):
     if kind == "parse_object" and rng.random() < 0.35:
         pool = SCALARISH
     decls = gen_parser(rng, pool)
+    if kind in NARGS_OPS:
+        # list-valued ACTIONS (nargs): their elements are checked one by one and written back into the list handed over
+        for d in decls:
+            if rng.random() < 0.3:
+                d[1] = ["nargs", rng.choice([I, I, S, ["list", I], ["tup2", I, I], ["dict", I]])]
+                d[2] = None if rng.random() < 0.5 else gen(rng, d[1], CANON)
+        if kind == "validate" and rng.random() < 0.45:
+            kind = "validate_branch"          # validate(branch_namespace, branch="g"), every argument declared as --g.<key>
     failing = rng.random() < 0.3
     style = rng.random()
     q = dict(CANON)
@@ -303,7 +320,10 @@ def one_case(rng):
     if rng.random() < 0.03:
         cfg = NS()
     if kind == "dump":
-        return mk_case(decls, kind, [cfg], skipval=rng.random() < 0.25)
+        # dump(skip_validation=True) of a value that is no list for a list-valued action raises TypeError out of
+        # suppress(ValueError); the model has one kind of ordinary failure only, so such dumps validate first
+        has_nargs = any(t[0] == "nargs" for _, t, _ in decls if not isinstance(t, str))
+        return mk_case(decls, kind, [cfg], skipval=rng.random() < 0.25 and not has_nargs)
     if kind == "save":
         return mk_case(decls, kind, [cfg], exists=failing and rng.random() < 0.3, dir=rng.choice(DIRS))
     return mk_case(decls, kind, [cfg])
@@ -333,6 +353,11 @@ def fixed_cases():
         mk_case([["k", ["tup1", ["tup2", I, ["list", ["tup2", I, I]]]], None]], "dump", [NS(k=((7, [(1, 2)]),))], skipval=False),
         mk_case([["k", ["tup1", ["tup1", ["list", I]]], (([1],),)]], "get_defaults"),
         mk_case([["o", ["dict", I], {"m": 1}], ["o.h", I, 2], ["a", I, 3]], "get_defaults"),
+        # list-valued actions, validate(branch=): elements are normalised in the clone, never in the caller's list
+        mk_case([["n", ["nargs", I], None], ["a", I, 1]], "validate_branch", [NS(n=["1", 2], a=3)]),
+        mk_case([["n", ["nargs", I], None], ["a", I, 1]], "validate_branch", [NS(n=["1", "x"], a=3)]),
+        mk_case([["n", ["nargs", ["list", I]], [[1]]], ["a", I, 1]], "validate", [NS(n=[["1", 2], [3]], a="4")]),
+        mk_case([["n", ["nargs", I], [1]], ["a", I, 1]], "validate_branch", [NS(n=[1, 2], a="foo")]),
         mk_case([["k", LL, [[1], [2]]], ["a", I, 3]], "parse_path", content={"k": [["1"]], "a": "foo"}, dir="symlink"),
         mk_case([["k", LL, [[1], [2]]], ["a", I, 3]], "parse_path", content={"k": [["1"]], "a": 4}, dir="symrel"),
         mk_case([["k", LL, [[1], [2]]], ["a", I, 3]], "save", [NS(k=[["1"]], a=4)], exists=False, dir="symlink"),
@@ -506,9 +531,12 @@ AUX_NO_FILE = AUX_ENTRIES[7:16] + ["parse_env", "dump_links"]
 
 def aux_cases():
     """all of them: entry point x directory flavour x (succeeds | fails midway)"""
-    return [{"kind": "aux", "entry": e, "dir": d, "fail": f} for e in AUX_ENTRIES
+    # preset: the call starts in a process whose argparse.Namespace, load_value_mode and os.environ are NOT at their
+    # import-time / default values (a history; what was found must be what is left)
+    return [{"kind": "aux", "entry": e, "dir": d, "fail": f, "preset": ps} for e in AUX_ENTRIES
             for d in (["plain"] if e in AUX_NO_FILE else ["plain", "symlink", "rel", "symrel"])
-            for f in ((False,) if e in ("get_defaults", "dump_links") else (False, True))]
+            for f in ((False,) if e in ("get_defaults", "dump_links") else (False, True))
+            for ps in ((False, True) if d in ("plain", "symrel") else (False,))]
 
 
 def is_aux(case):
@@ -608,7 +636,7 @@ def gty(t):
     if t == S:
         return "TStr"
     k = t[0]
-    name = {"list": "TList", "dict": "TDict", "tup1": "TTup1", "tup2": "TTup2", "opt": "TOpt"}[k]
+    name = {"list": "TList", "dict": "TDict", "tup1": "TTup1", "tup2": "TTup2", "opt": "TOpt", "nargs": "TNargs"}[k]
     return "(%s %s)" % (name, " ".join(gty(x) for x in t[1:]))
 
 
@@ -624,6 +652,8 @@ def gop(op):
                                g_list([gcell(c) for c in op["cells"]], "cell"), gv(op["root"]))
     if k == "validate":
         return "OValidate %s" % a
+    if k == "validate_branch":
+        return "OValidateBranch %s" % a
     if k == "dump":
         return "ODump %s %s" % (a, g_bool(op["skipval"]))
     if k == "save":
@@ -674,9 +704,9 @@ def g_ivals(xs):
 
 def term(case, obs):
     if is_aux(case):
-        return ("AuxCase {| a_entry := %s; a_fails := %s; a_ok := %s; a_globals := %s; a_args_same := %s; "
+        return ("AuxCase {| a_entry := %s; a_fails := %s; a_preset := %s; a_ok := %s; a_globals := %s; a_args_same := %s; "
                 "a_defaults_same := %s |}" % (
-                    fw.g_N(AUX_ENTRIES.index(case["entry"])), g_bool(case["fail"]), g_bool(obs["ok"]),
+                    fw.g_N(AUX_ENTRIES.index(case["entry"])), g_bool(case["fail"]), g_bool(case.get("preset", False)), g_bool(obs["ok"]),
                     g_list([g_bool(b) for b in obs["globals"]], "bool"), g_bool(obs["args_same"]), g_bool(obs["defaults_same"])))
     if is_inst(case):
         return ("InstCase {| i_ok := %s; i_c := %s; i_cfg := %s; i_ids1 := %s; i_ids2 := %s; i_cfg_same := %s |}" % (
@@ -696,7 +726,7 @@ def heap_term(case, obs):
 
 def nontrivial_key(case, obs):
     if is_aux(case):
-        return repr((case["entry"], case["dir"], case["fail"]))
+        return repr((case["entry"], case["dir"], case["fail"], case.get("preset", False)))
     if is_inst(case):
         return None if len(obs["ids1"]) < 2 else repr((case["decls"], case["cfg"]))
     n = len(case["heap"]) + len(case["op"].get("cells", []))
@@ -718,6 +748,8 @@ GLOBAL_NAMES = ["cwd", "argparse.Namespace", "parent_parser", "lenient_check", "
 def describe(case, obs):
     if is_aux(case):
         return {"entry point": case["entry"], "directory of the file reached": case["dir"], "made to fail midway": case["fail"],
+                "before the call argparse.Namespace was another class, load_value_mode was set and os.environ had an extra variable":
+                    case.get("preset", False),
                 "returned": obs["ok"], "exception": obs.get("exc", ""),
                 "globals_changed": [GLOBAL_NAMES[i] for i, b in enumerate(obs["globals"]) if not b],
                 "argument object (argv list / environ dict / configuration; value, exact type and identity of every nested "
